@@ -753,7 +753,7 @@ func (e *Env) c05Reconnect(rule string) {
 			var load *core.Node
 			for _, m := range g.Nodes {
 				if m.Ctx == rn.Inl {
-					if v, ok := m.Instr.(ssa.Value); ok && fieldOfLoad(v) != nil && fieldOfLoad(v).Name() == "ready" {
+					if v, ok := m.Instr.(ssa.Value); ok && fieldOfLoad(v) != nil && isBoolType(fieldOfLoad(v).Type()) {
 						load = m
 					}
 				}
